@@ -341,6 +341,11 @@ func evaluateTokens(msg messageInfo, tokens []string, charset string, userID int
 				key1Tokens = append(key1Tokens, tokens[i])
 			}
 			i++
+			// The first key and its argument may have used up the tokens
+			// (e.g. OR FROM x): the second key is missing.
+			if i >= len(tokens) {
+				return false
+			}
 			key2Tokens := []string{tokens[i]}
 			if i+1 < len(tokens) && requiresArgument(strings.ToUpper(tokens[i])) {
 				i++
